@@ -905,8 +905,8 @@ MC_RUNS = {  # pid -> (quick runs, thorough runs): (fmt0, focus, MaxItems, MaxCh
     "C04": ([("sm", "save", 2, 1, 4), ("ssc", "save", 2, 1, 4)], [("sm", "save", 3, 2, 5), ("ssc", "save", 3, 1, 5)]),
     "C16": ([("sm", "tossc", 2, 1, 4)], [("sm", "tossc", 3, 1, 5)]),
     "C17": ([("ssc", "tosm", 2, 1, 3)], [("ssc", "tosm", 2, 1, 4)]),
-    "C05": ([("sm", "files", 2, 1, 3), ("ssc", "files", 2, 1, 3)], [("sm", "files", 2, 1, 4)]),
-    "C06": ([("sm", "files", 2, 1, 3), ("ssc", "files", 2, 1, 3)], [("sm", "files", 2, 1, 4)]),
+    "C05": ([("sm", "files", 2, 1, 3), ("ssc", "files", 2, 1, 3)], [("sm", "files", 3, 1, 3), ("ssc", "files", 3, 1, 3)]),
+    "C06": ([("sm", "files", 2, 1, 3), ("ssc", "files", 2, 1, 3)], [("sm", "files", 3, 1, 3), ("ssc", "files", 3, 1, 3)]),
     "C13": ([("sm", "timing", 2, 1, 4), ("ssc", "timing", 2, 1, 4)], [("sm", "timing", 3, 1, 5), ("ssc", "timing", 3, 1, 5)]),
     "C15": ([("ssc", "timing", 3, 1, 4)], [("ssc", "timing", 3, 1, 5)]),
     "C07": ([("sm", "edit", 1, 1, 3), ("ssc", "edit", 1, 1, 3)], [("sm", "edit", 2, 2, 4), ("ssc", "edit", 2, 1, 4)]),
